@@ -1056,6 +1056,9 @@ func applyMutations(tbl *table, r *btpb.Row, muts []*btpb.Mutation, now bigtable
 			if _, ok := fs[del.FamilyName]; !ok {
 				return fmt.Errorf("unknown family %q", del.FamilyName)
 			}
+			if err := tbl.validateDeleteRange(del.TimeRange); err != nil {
+				return err
+			}
 			fam := getFamily(r, del.FamilyName)
 			if fam == nil {
 				break
@@ -1351,6 +1354,24 @@ func (t *table) validTimestamp(ts int64) bool {
 
 	// Assume millisecond granularity is required.
 	return ts%1000 == 0
+}
+
+// validateDeleteRange checks the time range of a DeleteFromColumn mutation, whether or not
+// the column currently exists.
+func (t *table) validateDeleteRange(tsr *btpb.TimestampRange) error {
+	if tsr == nil {
+		return nil
+	}
+	if !t.validTimestamp(tsr.StartTimestampMicros) {
+		return fmt.Errorf("invalid timestamp %d", tsr.StartTimestampMicros)
+	}
+	if !t.validTimestamp(tsr.EndTimestampMicros) && tsr.EndTimestampMicros != 0 {
+		return fmt.Errorf("invalid timestamp %d", tsr.EndTimestampMicros)
+	}
+	if tsr.StartTimestampMicros >= tsr.EndTimestampMicros && tsr.EndTimestampMicros != 0 {
+		return fmt.Errorf("inverted or invalid timestamp range [%d, %d]", tsr.StartTimestampMicros, tsr.EndTimestampMicros)
+	}
+	return nil
 }
 
 // Must hold table lock.
